@@ -162,6 +162,9 @@ func main() {
 				c := g.RandomCase(true, false)
 				keep(c, runCase(c))
 			}
+			for i := 0; i < *n; i++ {
+				runCase(g.NeighbourCase())
+			}
 		}
 		if has("loose") {
 			for i := 0; i < *n; i++ {
@@ -182,7 +185,7 @@ func main() {
 		if has("values") {
 			for i := 0; i < *n; i++ {
 				ty := []string{"string", "int", "uint", "float", "time", "bool", "raw"}[i%7]
-				id, ops := g.ValueOps(ty, 1+g.R.Intn(4))
+				id, ops := g.ValueOps(ty, 1+g.R.Intn(6))
 				o, err := codec.RunValueOps(id, ty, ops)
 				if err != nil {
 					fatal(err)
